@@ -28,6 +28,23 @@ CLAIMED = {
               "semantics modelled. Two genuine defects found while proving it were repaired in /repo (STUN method decoding, "
               "multiple CHANGE-REQUEST attributes)."),
         technique="Coq theorem (decode-after-encode laws + per-responder port lemmas) + model/implementation correspondence"),
+    "C04": dict(
+        text=("Coq theorem over the model of reply(): every emitted frame (of octets, shorter than 64 KiB) passes the "
+              "executable well-formedness checker wf_frame built from independent strict decoders and a receiver-style "
+              "checksum verifier: IPv4 version 4 / IHL 5, total length = actual, DF only, TTL >= 1, valid header checksum; "
+              "IPv6 version 6, payload length = actual, hop limit >= 1 and 255 on neighbour advertisements; TCP data offset "
+              "5, valid checksum over the pseudo-header, non-zero window on SYN-ACK; UDP length = actual, checksum zero or "
+              "valid over IPv4 and non-zero and valid over IPv6; ICMP/ICMPv6 checksums valid. The Internet-checksum algebra "
+              "(fold ≡ mod 65535, inserting the complement makes the sum fold to 0xFFFF, the 0 -> 0xFFFF case of UDP/IPv6) "
+              "is proved once. Tied to /repo by differential execution on all length/checksum fields (payload sizes "
+              "0..1472, every reply kind, a solver for the UDP/IPv6 zero-checksum case) and by evaluating wf_frame on "
+              "the implementation's real frames."),
+        design="DESIGN.md section 5, C04",
+        note=("Trusted: Coq kernel, extraction + OCaml driver, harness; correspondence is testing; pnet checksum/accessor "
+              "semantics modelled. The theorem takes 'emitted frame consists of octets and is shorter than 64 KiB' as "
+              "hypotheses on the emitted frame; their discharge for received frames <= 4096 bytes (amplification bound) "
+              "is work in progress (Proofs/ReplyBytes.v) and is checked on every executed case by the monitor."),
+        technique="Coq theorem (checksum algebra + decode-after-encode laws over the factorised pipeline) + model/implementation correspondence"),
     "C05": dict(
         text=("Coq theorem over the model of reply(): an ARP request (op 1) for a handled IPv4 address gets an Ethernet/IPv4 "
               "ARP reply op 2 with sender = (configured MAC, requested address) and target = requester's pair; a code-0 "
